@@ -671,10 +671,10 @@ attrsLoop:
 						var appended bool
 						if htmlAttr.Key == "rel" && (addNoFollow || addNoReferrer) {
 
-							if addNoFollow && !strings.Contains(htmlAttr.Val, "nofollow") {
+							if addNoFollow && !relContains(htmlAttr.Val, "nofollow") {
 								htmlAttr.Val += " nofollow"
 							}
-							if addNoReferrer && !strings.Contains(htmlAttr.Val, "noreferrer") {
+							if addNoReferrer && !relContains(htmlAttr.Val, "noreferrer") {
 								htmlAttr.Val += " noreferrer"
 							}
 							noFollowFound = addNoFollow
@@ -748,7 +748,7 @@ attrsLoop:
 						for _, htmlAttr := range cleanAttrs {
 							var appended bool
 							if htmlAttr.Key == "rel" {
-								if strings.Contains(htmlAttr.Val, "noopener") {
+								if relContains(htmlAttr.Val, "noopener") {
 									noOpenerAdded = true
 									tmpAttrs = append(tmpAttrs, htmlAttr)
 								} else {
@@ -1032,6 +1032,16 @@ func linkable(elementName string) bool {
 	default:
 		return false
 	}
+}
+
+// relContains returns true if the space separated rel value contains the token
+func relContains(rel string, token string) bool {
+	for _, t := range strings.Fields(rel) {
+		if strings.EqualFold(t, token) {
+			return true
+		}
+	}
+	return false
 }
 
 // stringInSlice returns true if needle exists in haystack
